@@ -58,6 +58,11 @@ extern int mpt_parse_data(const MPT_STRUCT(parser_format) *fmt, MPT_STRUCT(parse
 		last = curr;
 	}
 	
+	/* character not read or not saved, regular end of input is (-2) */
+	if (curr < 0 && curr != -2) {
+		parse->curr = MPT_PARSEFLAG(Data);
+		return MPT_ERROR(BadArgument);
+	}
 	if (fmt->oend && curr != fmt->oend) {
 		parse->curr = MPT_PARSEFLAG(Data);
 		return MPT_ERROR(BadValue);
